@@ -87,6 +87,13 @@ Theorem C18_bit_position_reported_iff_different : forall p1 p2,
 Proof. exact bitpos_reported_iff_differs. Qed.
 Print Assumptions C18_bit_position_reported_iff_different.
 
+(* the default value of a VALUE parameter is reported exactly when it differs, a default which appears or disappears
+   included (since the fix commit) *)
+Theorem C18_default_value_reported_iff_different : forall a b,
+  In L_default (cmp_extra (XValue a) (XValue b)) <-> a <> b.
+Proof. exact default_reported_iff_differs. Qed.
+Print Assumptions C18_default_value_reported_iff_different.
+
 (* a data object edited in place behind an unchanged reference is reported ("Linked DOP object") exactly when the
    objects or their units differ; apart from constant / default values nothing else is reported for equal objects *)
 Theorem C18_linked_dop_reported_iff_different : forall n t po b s bp i1 n1 u1 p1 e1 i2 n2 u2 p2 e2,
